@@ -304,6 +304,9 @@ class Conn(object):
     self.cid = cid
     self.sock = sock
     self.rx = b''              # bytes received from the client, not yet parsed by the peer
+    self.consumed = 0          # bytes of the client's stream already parsed by the peer
+    self.written = 0           # bytes of the client's stream handed to sendall so far
+    self.write_starts = []     # (stream offset, global seq, time) of every client sendall
     self.closed_by_client = False
     self.closed_by_peer = False
 
@@ -338,6 +341,17 @@ class Conn(object):
     self.sock._ev.set()
 
 
+def write_start(conn, offset):
+  """(seq, time) at which the client write containing stream offset `offset` began."""
+  best = (None, None)
+  for off, sq, t in conn.write_starts:
+    if off <= offset:
+      best = (sq, t)
+    else:
+      break
+  return best
+
+
 class Server(object):
   """Scripted endpoint. Subclass or pass callbacks."""
 
@@ -346,6 +360,7 @@ class Server(object):
     self.reachable = reachable        # bool or callable(now) -> True | False | 'hang'
     self.conns = []
     self.connect_delay = 0            # ticks a successful connect takes
+    self.send_delay = 0               # ticks a client write blocks after half of it was accepted
     self.connect_log = []             # (time, outcome)
 
   def is_reachable(self, now):
@@ -433,9 +448,27 @@ class FakeG(object):
     data = bytes(data)
     w.log.append((w.clock.now, 'send', self.port, self._conn.cid, len(data)))
     w.wire.append((w.clock.now, self.port, self._conn.cid, data))
-    if not self._conn.closed_by_peer:
+    # where in the connection's byte stream this write starts, and when (global order) it started
+    self._conn.write_starts.append((self._conn.written, w.next_seq() if hasattr(w, 'next_seq') else None, w.clock.now))
+    self._conn.written += len(data)
+    srv = w.servers[self.port]
+    d = getattr(srv, 'send_delay', 0)
+    if d and len(data) > 1:
+      # a slow write: part of the buffer is accepted at once, the caller blocks, the rest follows; an exception
+      # thrown into the blocked writer (gevent.Timeout, kill) leaves the first part on the wire
+      cut = len(data) // 2
+      self._deliver(data[:cut])
+      vsleep(d * TICK)
+      if self._closed:
+        raise _socket.error(9, 'Bad file descriptor')
+      self._deliver(data[cut:])
+    else:
+      self._deliver(data)
+
+  def _deliver(self, data):
+    if not self._conn.closed_by_peer and not self._conn.closed_by_client:
       self._conn.rx += data
-      w.servers[self.port].on_data(self._conn)
+      self.world.servers[self.port].on_data(self._conn)
 
   def send(self, data):
     self.sendall(data)
